@@ -567,7 +567,12 @@ def write_evidence(prop_id: str, evidence: dict) -> str | None:
     old = sys.get_int_max_str_digits()
     sys.set_int_max_str_digits(0)
     try:
-        (d / f"{prop_id}.json").write_text(json.dumps(evidence, indent=1, default=repr) + "\n")
+        text = json.dumps(evidence, indent=1, default=repr) + "\n"
+        (d / f"{prop_id}.json").write_text(text)
+        if evidence.get("tier") == "thorough":
+            # keep the deep run's record next to the quick one (evidence/<id>.json is rewritten by every run)
+            (d / "thorough").mkdir(exist_ok=True)
+            (d / "thorough" / f"{prop_id}.json").write_text(text)
     finally:
         sys.set_int_max_str_digits(old)
     return problem
